@@ -345,6 +345,27 @@ func runC18(ctx *core.Ctx, out *core.Out) {
 	target := scheme + "://" + urlHost + "/ws?x=1"
 	desc["url"] = target
 	out.Eval(core.J(cell)+fmt.Sprint(idx/len(c18Cells)), cell.Proxy != 0 || cell.WSS)
+	if cell.WSS && cell.Cert == 2 && cell.Proxy == 0 && firstHook != "NetDialTLSContext" && !cell.TLSNil {
+		// history: another Dialer of this process, which DOES trust the backend's CA, has just
+		// connected to the same server under the same name (same TLS server configuration, so
+		// its session tickets would be honoured). The Dialer under test trusts another CA only.
+		be0, e0 := newBackend(beTLS, "127.0.0.1:0")
+		if e0 == nil {
+			wd := &ws.Dialer{TLSClientConfig: &tls.Config{RootCAs: pk.otherCA.pool}, HandshakeTimeout: 20 * time.Second,
+				NetDialContext: func(ctx context.Context, network, addr string) (net.Conn, error) {
+					return (&net.Dialer{}).DialContext(ctx, "tcp", be0.Addr())
+				}}
+			for i := 0; i < 2; i++ {
+				if wc, _, we := wd.Dial(target, nil); we == nil {
+					wc.SetReadDeadline(time.Now().Add(20 * time.Millisecond))
+					wc.ReadMessage() // lets the TLS layer take in the server's session tickets
+					wc.Close()
+					out.Count("untrusted_backends_visited_before_by_a_trusting_dialer", 1)
+				}
+			}
+			be0.Close()
+		}
+	}
 	var reqHdr http.Header
 	wantHostHdr := urlHost
 	if cell.HostHdr {
